@@ -1,0 +1,64 @@
+//go:build verif
+
+// Contracts for package qrcode, read by the govc verification-condition generator in /verif.
+// Comments only.
+
+package qrcode
+
+//@ lemma scaleFit(out int, n int, m int, mult int)
+//@   property C14 C12
+//@   opt nia=on
+//@   requires n >= 1 && m >= 0 && out >= n + m && 1 <= mult && mult <= out / (n + m)
+//@   ensures n * mult <= out && n * mult >= n
+//@ lemma divPos(out int, q int)
+//@   property C14 C12
+//@   opt nia=on
+//@   requires q >= 1 && out >= q
+//@   ensures out / q >= 1
+//@ lemma mulSucc(a int, b int)
+//@   property C14 C12
+//@   opt nia=on
+//@   ensures (a + 1) * b == a * b + b
+//@ lemma mulMono(a int, b int, c int)
+//@   property C14 C12
+//@   opt nia=on
+//@   requires a <= b && c >= 0
+//@   ensures a * c <= b * c
+
+//@ pred wfBYM(m *encoder.ByteMatrix) = m.width >= 1 && m.height >= 1 && len(m.bytes) == m.height && (forall y int :: 0 <= y && y < m.height ==> len(m.bytes[y]) == m.width)
+
+//@ func renderResult(code *encoder.QRCode, width int, height int, quietZone int) (r *gozxing.BitMatrix, e error)
+//@   property C14 C12
+//@   requires code != nil && quietZone >= 0 && (code.matrix != nil ==> wfBYM(code.matrix))
+//@   let iw = code.matrix.width
+//@   let ih = code.matrix.height
+//@   let ow = max(width, iw + 2*quietZone)
+//@   let oh = max(height, ih + 2*quietZone)
+//@   use divPos(ow, iw + 2*quietZone)
+//@   use divPos(oh, ih + 2*quietZone)
+//@   use scaleFit(ow, iw, 2*quietZone, min(ow / (iw + 2*quietZone), oh / (ih + 2*quietZone)))
+//@   use scaleFit(oh, ih, 2*quietZone, min(ow / (iw + 2*quietZone), oh / (ih + 2*quietZone)))
+//@   ensures (code.matrix == nil) == (e != nil) && (r != nil) != (e != nil)
+//@   ensures r != nil ==> gozxing.wfBM(r) && r.width == ow && r.height == oh
+//@   assert call(SetRegion, 0): multiple >= 1 && 0 <= outputX && outputX + multiple <= output.width && 0 <= outputY && outputY + multiple <= output.height
+//@   loop 0: invariant input == code.matrix && input != nil && wfBYM(input) && inputWidth == iw && inputHeight == ih && output != nil && gozxing.wfBM(output) && output.width == ow && output.height == oh
+//@   loop 0: invariant multiple == min(ow / (iw + 2*quietZone), oh / (ih + 2*quietZone)) && multiple >= 1 && leftPadding == (ow - iw * multiple) / 2 && topPadding == (oh - ih * multiple) / 2 && 0 <= leftPadding && 0 <= topPadding
+//@   loop 0: invariant 0 <= inputY && inputY <= ih && outputY == topPadding + inputY * multiple
+//@   loop 0: use mulSucc(inputY, multiple)
+//@   loop 0: use mulMono(inputY + 1, ih, multiple)
+//@   loop 0: use mulMono(0, inputY, multiple)
+//@   loop 0: decreases ih - inputY
+//@   loop 1: invariant input == code.matrix && input != nil && wfBYM(input) && inputWidth == iw && inputHeight == ih && output != nil && gozxing.wfBM(output) && output.width == ow && output.height == oh
+//@   loop 1: invariant multiple == min(ow / (iw + 2*quietZone), oh / (ih + 2*quietZone)) && multiple >= 1 && leftPadding == (ow - iw * multiple) / 2 && topPadding == (oh - ih * multiple) / 2 && 0 <= leftPadding && 0 <= topPadding
+//@   loop 1: invariant 0 <= inputY && inputY < ih && outputY == topPadding + inputY * multiple && 0 <= outputY && outputY + multiple <= oh
+//@   loop 1: invariant len(input.bytes[inputY]) == iw
+//@   loop 1: invariant 0 <= inputX && inputX <= iw && outputX == leftPadding + inputX * multiple
+//@   loop 1: use mulSucc(inputX, multiple)
+//@   loop 1: use mulMono(inputX + 1, iw, multiple)
+//@   loop 1: use mulMono(0, inputX, multiple)
+//@   loop 1: decreases iw - inputX
+
+//@ func (this *QRCodeWriter) Encode(contents string, format gozxing.BarcodeFormat, width int, height int, hints map[gozxing.EncodeHintType]interface{}) (r *gozxing.BitMatrix, e error)
+//@   property C12
+//@   ensures (r != nil) != (e != nil)
+//@   ensures r != nil ==> r.width >= width && r.height >= height && r.width >= 1 && r.height >= 1
